@@ -101,7 +101,7 @@ CFG = dict(
              "and pencil-of-circles lemmas; CavityDisc is decided per run on the model's states in exact arithmetic; the EXECUTABLE "
              "checkers for vertices, index range, strict uniform winding (= positive area), no input strictly inside a circumcircle, no two "
              "triangles sharing an interior point are proved sound (c20_checkers_sound) and are run by the driver in exact integer arithmetic on "
-             "the IEEE bit patterns of the real BowyerWatson output: sound per input, sampled over inputs (15 generator classes, 3–400 points, input slices with spare capacity and an input-unchanged "
+             "the IEEE bit patterns of the real BowyerWatson output: sound per input, sampled over inputs (15 generator classes, 3–400 points plus clouds of 1100–3100 points judged on a triangle sample, input slices with spare capacity and an input-unchanged "
              "oracle, wheels with the hub inserted last (one cavity of > 64 triangles), a concurrent batch of 8 calls in flight compared with the "
              "sequential results: "
              "uniform, clustered, near-collinear hull, scaled, units of 1e-9/1e-7/1e+7, offset, far offset 1e7–1e10, tiny clusters, tight dyadic "
